@@ -88,11 +88,11 @@ Print Assumptions C16_sig_block_is_ref.
 (* PairExpander.Expand with the stage tags of the block's kind (the stage is in the list read from the source, with the
    inner function used here: stage_in_source): text before the block is kept, the block is replaced by the reference block,
    the expander continues on the rest from its initial state (so several blocks of a kind, in any position, compose). *)
-Theorem C16_block_stage : forall k items pre body rest,
+Theorem C16_block_stage : forall k ib ie items pre body rest,
   forallb (not_be (fst (stage_tags k)) (snd (stage_tags k))) pre = true ->
   forallb (not_be (fst (stage_tags k)) (snd (stage_tags k))) (map render_line body) = true ->
-  forallb (body_line_ok (keys_of k)) body = true -> block_wf (table_of_kind k) items body = true ->
-  pair_expand (fst (stage_tags k)) (snd (stage_tags k)) (inner_of_kind k items) (pre ++ render_item16 (Block k body) ++ rest)
+  item16_ok (Block k ib ie body) = true -> block_wf (table_of_kind k) items body = true ->
+  pair_expand (fst (stage_tags k)) (snd (stage_tags k)) (inner_of_kind k items) (pre ++ render_item16 (Block k ib ie body) ++ rest)
   = option_map (fun t => pre ++ ref_block (table_of_kind k) items body ++ t)
                (pair_go (fst (stage_tags k)) (snd (stage_tags k)) (inner_of_kind k items) false [] None rest).
 Proof. exact block_stage. Qed.
@@ -134,10 +134,10 @@ Proof. exact engine16_is_ref_table. Qed.
 Print Assumptions C16_engine_is_ref_table.
 
 Definition ex16 : template16 :=
-  [Text "// guards first"; Block KGuard [[Lit "g "; Tag "GUARDNAME" None; Lit " "; Tag "NUM" None]];
-   Text "	x"; SigBlock [[Tag "actionName" None; Lit "("; Tag "EVENTNAME" None; Lit ")"]];
-   Block KState [[Lit "  "; Tag "ALPH" None; Lit " "; Tag "STATE_NAME" None]; [Lit "  -"]];
-   Block KGuard [[Tag "guardName" None]]; Text "// end"].
+  [Text "// guards first"; Block KGuard "    " "  " [[Lit "g "; Tag "GUARDNAME" None; Lit " "; Tag "NUM" None]];
+   Text "	x"; SigBlock "" "" [[Tag "actionName" None; Lit "("; Tag "EVENTNAME" None; Lit ")"]];
+   Block KState "" "" [[Lit "  "; Tag "ALPH" None; Lit " "; Tag "STATE_NAME" None]; [Lit "  -"]];
+   Block KGuard "	" "" [[Tag "guardName" None]]; Text "// end"].
 Example C16_block_is_ref_nonvacuous :
   let body := [[Lit "  "; Tag "NUM" None; Tag "ALPH" None; Lit " "; Tag "STATENAME" None; Lit " "; Tag "stateName" None; Lit " "; Tag "STATE_NAME" None]] in
   forallb (body_line_ok (keys_of KState)) body = true
